@@ -596,3 +596,12 @@ def run(ctx):
     r4_park_under_lock(ctx)
     r5_ping_atomics(ctx)
     r6_admission(ctx)
+
+
+_run_rules = run
+
+
+def run(ctx):
+    _run_rules(ctx)
+    from .. import boundaries
+    boundaries.check(ctx, 'C06.RB', 'C06')
